@@ -727,7 +727,7 @@ int main(int argc, char** argv)
         }
         std::string out;
         static int n_timeouts = 0;
-        if (n_timeouts >= 6) {
+        if (n_timeouts >= 25) {
             // the run is already a failure; do not spend hours on the rest
             puts("skipped-after-timeouts");
             continue;
